@@ -32,7 +32,286 @@ def parseBool : String → Option Bool
   | "1" => some true
   | _ => none
 
-def run (case _impl : String) : String :=
+
+/-! ### pool scripts: the model run to quiescence after every client step -/
+
+inductive RuleKind where
+  | reject | mismatch | void | upper | closeOnce
+  deriving DecidableEq
+
+structure Rule where
+  idx : Nat
+  shard : Option Nat
+  conn : Option Nat := none   -- `closeOnce`: the connection chosen when the rule was installed
+  kind : RuleKind
+  spent : Bool
+
+abbrev P := Pool VerifiedName
+
+structure Sim where
+  pool : P
+  names : List (String × Bool)
+  sharded : Bool
+  n : Nat
+  rules : List Rule
+  holdNew : Bool
+  held : List Nat
+
+def otherKs : VerifiedName := ⟨"zz_other", true⟩
+
+/-- The keyspace a server selects: unquoted identifiers are lower-cased. -/
+def srvName (v : VerifiedName) : String :=
+  if v.caseSensitive then v.name else String.ofList (v.name.toList.map asciiLower)
+
+def Sim.nameIdx (s : Sim) (v : VerifiedName) : Option Nat :=
+  s.names.findIdx? (fun e => e.1 == v.name && e.2 == v.caseSensitive)
+
+def Sim.verified (s : Sim) (i : Nat) : Option (Except BadName VerifiedName) :=
+  match s.names[i]? with
+  | none => none
+  | some (nm, cs) => some (VerifiedName.new nm cs)
+
+/-- What the scripted node does with `USE k` on connection `i`: `none` = it closes the connection. -/
+def Sim.reply (s : Sim) (i : Nat) (k : VerifiedName) : Sim × Option (SrvReply VerifiedName) :=
+  let sh := (s.pool.net i).shard
+  let ki := s.nameIdx k
+  let hit (r : Rule) : Bool := !r.spent && some r.idx == ki && (r.shard.isNone || r.shard == some sh) &&
+    (r.conn.isNone || r.conn == some i)
+  match s.rules.find? hit with
+  | none => (s, some .ack)
+  | some r =>
+    match r.kind with
+    | .reject => (s, some .dbError)
+    | .mismatch => (s, some (.ackOther otherKs))
+    | .void => (s, some .unexpected)
+    | .upper => (s, some .ack)
+    | .closeOnce =>
+      -- the first matching rule is spent
+      let rec spend : List Rule → List Rule
+        | [] => []
+        | r :: rs => if hit r then { r with spent := true } :: rs else r :: spend rs
+      ({ s with rules := spend s.rules }, none)
+
+def Sim.ev (s : Sim) (e : Ev VerifiedName) : Sim := { s with pool := step s.pool e }
+
+/-- One `USE` of task `t` on connection `i`. -/
+def Sim.taskUse (s : Sim) (t i : Nat) (k : VerifiedName) : Sim :=
+  if (s.pool.net i).broken then s.ev (.taskUse t i .ack)
+  else
+    match s.reply i k with
+    | (s, some r) => s.ev (.taskUse t i r)
+    | (s, none) => (s.ev (.breakConn i)).ev (.taskUse t i .ack)
+
+def outcomeTok : Outcome → String
+  | .ok => "ok"
+  | .err e => "e:" ++ useErrLabel e
+  | .panic => "PANIC"
+
+/-- `use_keyspace(names[i])` awaited. -/
+def Sim.useKs (s : Sim) (k : VerifiedName) : Sim × String :=
+  let tid := s.pool.tasks.length
+  let s := s.ev (.useKs k)
+  match findTask s.pool.tasks tid with
+  | none => (s, "MODEL-BUG")
+  | some t =>
+    if t.snapshot.any (fun i => s.held.contains i && !(s.pool.net i).broken) then
+      -- a held connection does not answer before the pool's timeout fires. Its `USE` stays in flight and is
+      -- served when the node releases it (connections are FIFO); in the model's trace that service is placed
+      -- just before the timeout (the atomic `taskUse` stands for submit+serve).
+      let s := t.snapshot.foldl (fun s i => s.taskUse tid i k) s
+      let s := s.ev (.taskTimeout tid)
+      (s, "e:RequestTimeout")
+    else
+      let s := t.snapshot.foldl (fun s i => s.taskUse tid i k) s
+      let s := s.ev (.taskFinish tid)
+      match findTask s.pool.tasks tid with
+      | some t => (s, match t.resp with | some o => outcomeTok o | none => "MODEL-STUCK")
+      | none => (s, "MODEL-BUG")
+
+def Sim.connErrors (s : Sim) : Sim :=
+  let broken := (s.pool.conns ++ s.pool.excess).filter fun i => (s.pool.net i).broken
+  broken.foldl (fun s i => s.ev (.connError i)) s
+
+/-- Resolve every setting-keyspace future whose connection is not held (`fuel` bounds re-setting). -/
+def Sim.settle : Nat → Sim → Sim
+  | 0, s => s
+  | fuel + 1, s =>
+    match s.pool.setting.find? (fun e => !s.held.contains e.1) with
+    | none => s
+    | some (i, k, _) =>
+      if (s.pool.net i).broken then Sim.settle fuel (s.ev (.ksSet i .ack))
+      else
+        match s.reply i k with
+        | (s, some r) => Sim.settle fuel (s.ev (.ksSet i r))
+        | (s, none) => Sim.settle fuel ((s.ev (.breakConn i)).ev (.ksSet i .ack))
+
+/-- Resolve the pending open futures: the first connection to an empty pool comes through the regular port
+(the node picks the shard: the model takes the lowest missing one), the others through the shard-aware port. -/
+def Sim.openAll : Nat → Sim → Sim
+  | 0, s => s
+  | fuel + 1, s =>
+    if s.pool.opening = 0 then s
+    else
+      let missing := (List.range s.n).filter fun sh => s.pool.shardCount sh == 0 &&
+        !(s.pool.setting.any fun e => (s.pool.net e.1).shard == sh)
+      let sh := if s.sharded then missing.headD 0 else 0
+      let sharder := if s.sharded then some s.n else none
+      let requested := s.sharded && !s.pool.conns.isEmpty
+      let i := s.pool.nextId
+      let s := s.ev (.opened sh sharder requested)
+      let s := if s.holdNew then { s with held := i :: s.held } else s
+      Sim.openAll fuel s
+
+def Sim.total (s : Sim) : Nat := s.n
+
+/-- Run the refiller until the pool is full or nothing more happens (`rounds` refills at most). -/
+def Sim.quiesce : Nat → Sim → Sim
+  | 0, s => s
+  | rounds + 1, s =>
+    let s := s.connErrors
+    let s := s.settle 16
+    if s.pool.conns.length ≥ s.total then s
+    else if !s.pool.needFilling then s
+    else
+      let s := s.ev .refill
+      let s := s.openAll 16
+      let s := s.settle 16
+      Sim.quiesce rounds s
+
+def Sim.liveKs (s : Sim) (shard : Option Nat) : List String :=
+  (s.pool.conns.filter fun i => !(s.pool.net i).broken && (shard.isNone || shard == some (s.pool.net i).shard)).map
+    fun i => match (s.pool.net i).serverKs with
+      | some v => srvName v
+      | none => "-"
+
+def Sim.query (s : Sim) (shard : Nat) (implTok : String) : String :=
+  let exact := if s.sharded then s.liveKs (some shard) else []
+  let cands := if exact.isEmpty then s.liveKs none else exact
+  if cands.isEmpty then "q!"
+  else if cands.any (fun k => "q" ++ k == implTok) then implTok
+  else "q" ++ cands.headD "?" ++ "(model)"
+
+def Sim.row (s : Sim) (i : Nat) : String :=
+  ">".intercalate ((s.pool.net i).acked.map fun v => match s.nameIdx v with | some j => toString j | none => "?")
+
+/-- The live connection with the smallest (acknowledged-USE history, shard, id). -/
+def Sim.victim (s : Sim) (shard : Option Nat) : Option Nat :=
+  let live := (List.range s.pool.nextId).filter fun i =>
+    !(s.pool.net i).broken && (shard.isNone || shard == some (s.pool.net i).shard)
+  live.foldl (fun best i => match best with
+    | none => some i
+    | some b =>
+      if s.row i < s.row b || (s.row i == s.row b && (s.pool.net i).shard < (s.pool.net b).shard) then some i
+      else some b) none
+
+def Sim.list (s : Sim) : String :=
+  let rows := (List.range s.pool.nextId).filter (fun i => !(s.pool.net i).broken) |>.map s.row
+  let sorted := rows.toArray.qsort (· < ·) |>.toList
+  "l[" ++ ",".intercalate sorted ++ "]"
+
+def parseRule (op : String) (arg : String) : Option Rule :=
+  let kind : Option RuleKind := match op with
+    | "R" => some .reject | "M" => some .mismatch | "V" => some .void | "P" => some .upper | "C" => some .closeOnce
+    | _ => none
+  match kind, arg.splitOn "," with
+  | some kind, [i, sh] =>
+    match i.toNat?, (if sh == "*" then some none else sh.toNat?.map some) with
+    | some i, some shard => some { idx := i, shard, kind, spent := false }
+    | _, _ => none
+  | _, _ => none
+
+/-- Runs the steps; `impl` are the implementation's tokens (consulted only for the random connection choice). -/
+def Sim.steps : List String → List String → Sim → List String → Option (List String)
+  | [], _, _, acc => some acc.reverse
+  | st :: rest, impl, s, acc =>
+    let op := (st.take 1).toString
+    let arg := (st.drop 1).toString
+    let tok := impl.headD ""
+    match op with
+    | "U" =>
+      match arg.toNat? with
+      | none => none
+      | some i =>
+        match s.verified i with
+        | none => none
+        | some (.error _) => Sim.steps rest (impl.drop 1) s ("e:BadKeyspaceName" :: acc)
+        | some (.ok k) =>
+          let (s, t) := s.useKs k
+          Sim.steps rest (impl.drop 1) s (t :: acc)
+    | "Q" =>
+      match arg.toNat? with
+      | none => none
+      | some sh => Sim.steps rest (impl.drop 1) s (s.query sh tok :: acc)
+    | "K" =>
+      match arg.toNat? with
+      | none => none
+      | some sh =>
+        match s.victim (if s.sharded then some sh else none) with
+        | some i => Sim.steps rest (impl.drop 1) (s.ev (.breakConn i)) ("k" :: acc)
+        | none => Sim.steps rest (impl.drop 1) s ("k-" :: acc)
+    | "W" =>
+      let s := s.quiesce 3
+      Sim.steps rest (impl.drop 1) s (s!"w{s.pool.conns.length}" :: acc)
+    | "H" =>
+      let s := s.connErrors
+      let s := s.settle 16
+      let s := if s.pool.needFilling then (s.ev .refill).openAll 16 else s
+      let s := s.settle 16
+      let pending := s.pool.setting.any fun e => s.held.contains e.1 && !(s.pool.net e.1).broken
+      Sim.steps rest (impl.drop 1) s ((if pending then "h" else "h-") :: acc)
+    | "G" => Sim.steps rest impl { s with holdNew := false, held := [] } acc
+    | "D" => Sim.steps rest impl { s with holdNew := true } acc
+    | "X" => Sim.steps rest impl { s with rules := [] } acc
+    | "L" => Sim.steps rest (impl.drop 1) s (s.list :: acc)
+    | _ =>
+      match parseRule op arg with
+      | some r =>
+        if r.kind == .closeOnce then
+          match s.victim r.shard with
+          | some i => Sim.steps rest impl { s with rules := s.rules ++ [{ r with conn := some i }] } acc
+          | none => Sim.steps rest impl s acc
+        else Sim.steps rest impl { s with rules := s.rules ++ [r] } acc
+      | none => none
+
+def parseNames (field : String) : Option (List (String × Bool)) :=
+  (field.splitOn ",").mapM fun e =>
+    match e.splitOn ":" with
+    | [h, cs] =>
+      match strOfHex h, parseBool cs with
+      | some s, some b => some (s, b)
+      | _, _ => none
+    | _ => none
+
+def parseMode (m : String) : Option (Bool × Nat) :=
+  match (m.take 1).toString, (m.drop 1).toString.toNat? with
+  | "S", some n => if 1 ≤ n ∧ n ≤ 8 then some (true, n) else none
+  | "H", some n => if 1 ≤ n ∧ n ≤ 8 then some (false, n) else none
+  | _, _ => none
+
+def runPool (mode init names script impl : String) : String :=
+  match parseMode mode, parseNames names with
+  | some (sharded, n), some names =>
+    let initKs : Option (Option VerifiedName) :=
+      if init == "-" then some none
+      else match init.toNat? with
+        | none => none
+        | some i => match names[i]? with
+          | some (nm, cs) => match VerifiedName.new nm cs with
+            | .ok v => some (some v)
+            | .error _ => none
+          | none => none
+    match initKs with
+    | none => "bad-case"
+    | some ks =>
+      let pool : P := Pool.init sharded (if sharded then 1 else n) ks
+      let s : Sim := { pool, names, sharded, n, rules := [], holdNew := false, held := [] }
+      -- `wait_until_initialized`: the first fill
+      match Sim.steps ((script.splitOn ";").filter (· ≠ "")) (impl.splitOn ";") s [] with
+      | some toks => ";".intercalate toks
+      | none => "bad-case"
+  | _, _ => "bad-case"
+
+def run (case impl : String) : String :=
   match words case with
   | ["name", h, cs] =>
     match strOfHex h, parseBool cs with
@@ -60,6 +339,13 @@ def run (case _impl : String) : String :=
           | .ok () => "ok"
           | .error e => "err " ++ useErrLabel e
     | _, _, _ => "bad-case"
+  | ["pool", mode, init, names, script] => runPool mode init names script impl.trimAscii.toString
+  | ["race", mode, init, names, script] =>
+    -- judged by the oracle at the node only; the model checks that the case is well-formed
+    match parseMode mode, parseNames names with
+    | some _, some ns =>
+      if (init == "-" || (init.toNat?.any (· < ns.length))) && script.length > 0 then "race" else "bad-case"
+    | _, _ => "bad-case"
   | _ => "bad-case"
 
 end ScyllaVerif.Drive.C20
